@@ -848,6 +848,12 @@ func c12Stress(t *testing.T, out *vc.Out, log *c12Logger, seed int64) {
 		time.Sleep(200 * time.Microsecond)
 		r.observeAll()
 		if !in.close() {
+			if st := c12BlockedInChanOp(c12BgFn); st != "" {
+				out.Emit(vc.M{"kind": "violation", "predicate": "NoLostStart", "class": "timer-goroutine-wedged", "k": 0, "script": -1, "rep": 0, "variant": "loop",
+					"detail": "the round timer goroutine is blocked for good (" + st + ") and did not return when its context was cancelled: every later timer request is lost"})
+				out.Flush()
+				t.Fatal("background goroutine wedged")
+			}
 			out.Emit(vc.M{"kind": "error", "why": "background goroutine did not exit after its context was cancelled"})
 			out.Flush()
 			t.Fatal("background goroutine did not exit")
@@ -980,6 +986,12 @@ func c12Stress(t *testing.T, out *vc.Out, log *c12Logger, seed int64) {
 	select {
 	case <-done:
 	case <-time.After(c12Bound):
+		if st := c12BlockedInChanOp(c12BgFn); st != "" {
+			out.Emit(vc.M{"kind": "violation", "predicate": "NoLostStart", "class": "timer-goroutine-wedged", "k": 0, "script": -2, "rep": 0, "variant": "stress",
+				"detail": "after the stress loop the round timer goroutine is blocked for good (" + st + ") and did not return when its context was cancelled: every later timer request is lost"})
+			out.Flush()
+			t.Fatal("background goroutine wedged")
+		}
 		out.Emit(vc.M{"kind": "error", "why": "background goroutine did not exit after its context was cancelled"})
 	}
 	out.Emit(vc.M{"kind": "summary", "mode": "stress", "iters": iters, "counts": counts, "traced_timers": tracedTimers,
